@@ -709,4 +709,11 @@ theorem constructed_drag_pos' (o : Opts ℝ) (m : Mdl ℝ) (hm : mkModel o = .ok
     positivity
   exact ⟨hdrag, div_pos hkT hdrag⟩
 
+/-! ## `calibrate_force` glue -/
+
+theorem optTruthy_real (d : Option ℝ) : optTruthy d = true ↔ ∃ g, d = some g ∧ g ≠ 0 := by
+  cases d with
+  | none => simp [optTruthy]
+  | some g => simp [optTruthy, truthy_real]
+
 end Verif.C11
